@@ -65,7 +65,14 @@ type l2Scn struct {
 	Port   bool `json:"port"`   // the registry is named up.test:5000 (mirror names are given by the scenario)
 	TLS    bool `json:"tls"`    // hosts configured with TLS enabled: https URLs
 	NoHead bool `json:"nohead"` // APIOpts disableHead=true on every host
+	Dmax   int  `json:"dmax"`   // delayMax in units of delayInit (0: 4)
+	// DefMirrors: the mirrors are listed on the default host (reg.WithConfigHostDefault) instead of the entry of
+	// the registry; no host has an entry of its own (priorities and prefixes are then those of the default)
+	DefMirrors bool `json:"defmirrors"`
 }
+
+// up2: a second registry used by the operations that read from two registries one after the other
+func (s *l2Scn) up2() string { return "up2." + strings.TrimPrefix(s.up(), "up.") }
 
 func (s *l2Scn) up() string {
 	if s.Port {
@@ -178,6 +185,7 @@ func (f *fixture) seed(h *simreg.Host, withFallback bool, prefix string) {
 // ---- operations ----
 
 type l2Op struct {
+	two   bool                     // reads from two registries one after the other
 	feat  func(f *simreg.Features) // host features of this variant
 	fb    bool                     // seed the referrers fall-back tag
 	chunk bool                     // small chunks, chunked upload forced
@@ -297,6 +305,85 @@ var l2Ops = map[string]l2Op{
 		d, err := rg.BlobPut(ctx, r, descriptor.Descriptor{}, bytes.NewReader(f.newBlob))
 		return d.Digest.String(), err
 	}},
+	// ---- round 4: several operations in sequence on one client (state left behind by the earlier one), with and
+	// without an idle gap longer than any back-off delay; one or two registries ----
+	"seq-manifest-get": {run: func(ctx context.Context, rg *reg.Reg, f *fixture, r ref.Ref) (string, error) {
+		m1, err := rg.ManifestGet(ctx, r.SetTag("v1"))
+		if err != nil {
+			return "", err
+		}
+		idleGap(ctx)
+		mark(ctx, "op", "")
+		m2, err := rg.ManifestGet(ctx, r.SetDigest(sha(f.man2)))
+		if err != nil {
+			return "", err
+		}
+		return m1.GetDescriptor().Digest.String() + "," + m2.GetDescriptor().Digest.String(), nil
+	}},
+	"seq-blob-get-head": {run: func(ctx context.Context, rg *reg.Reg, f *fixture, r ref.Ref) (string, error) {
+		br, err := rg.BlobGet(ctx, r, desc(mtLayer, f.layer1))
+		if err != nil {
+			return "", err
+		}
+		b, err := io.ReadAll(br)
+		_ = br.Close()
+		if err != nil {
+			return "", err
+		}
+		idleGap(ctx)
+		mark(ctx, "op", "")
+		bh, err := rg.BlobHead(ctx, r, desc(mtLayer, f.layer2))
+		if err != nil {
+			return "", err
+		}
+		_ = bh.Close()
+		return sha(b), nil
+	}},
+	"seq-tag-list-head-nogap": {run: func(ctx context.Context, rg *reg.Reg, f *fixture, r ref.Ref) (string, error) {
+		l, err := tagList(ctx, rg, f, r)
+		if err != nil {
+			return "", err
+		}
+		mark(ctx, "op", "")
+		m, err := rg.ManifestHead(ctx, r.SetTag("v2"))
+		if err != nil {
+			return "", err
+		}
+		return l + "," + m.GetDescriptor().Digest.String(), nil
+	}},
+	"seq2-manifest-get": {two: true, run: func(ctx context.Context, rg *reg.Reg, f *fixture, r ref.Ref) (string, error) {
+		m1, err := rg.ManifestGet(ctx, r.SetTag("v1"))
+		if err != nil {
+			return "", err
+		}
+		idleGap(ctx)
+		r2 := ref2(ctx, r)
+		mark(ctx, "op", r2.Registry)
+		m2, err := rg.ManifestGet(ctx, r2.SetTag("v2"))
+		if err != nil {
+			return "", err
+		}
+		return m1.GetDescriptor().Digest.String() + "," + m2.GetDescriptor().Digest.String(), nil
+	}},
+	"seq2-blob-head-tag-list": {two: true, run: func(ctx context.Context, rg *reg.Reg, f *fixture, r ref.Ref) (string, error) {
+		bh, err := rg.BlobHead(ctx, r, desc(mtLayer, f.layer1))
+		if err != nil {
+			return "", err
+		}
+		_ = bh.Close()
+		r2 := ref2(ctx, r)
+		mark(ctx, "op", r2.Registry)
+		l, err := tagList(ctx, rg, f, r2)
+		if err != nil {
+			return "", err
+		}
+		mark(ctx, "op", r.Registry)
+		m, err := rg.ManifestHead(ctx, r.SetTag("v1"))
+		if err != nil {
+			return "", err
+		}
+		return l + "," + m.GetDescriptor().Digest.String(), nil
+	}},
 	// ---- second round: feature flags of the registry, digest algorithm, reference spelling, Seek ----
 	"manifest-head-nodigest": {feat: func(f *simreg.Features) { f.HeadDigest = false },
 		run: func(ctx context.Context, rg *reg.Reg, f *fixture, r ref.Ref) (string, error) {
@@ -345,9 +432,7 @@ var l2Ops = map[string]l2Op{
 			return "", err
 		}
 		// the caller's Seek is not visible at the hosts: tell the monitor that a new call begins here
-		if mark, ok := ctx.Value(markKey{}).(func()); ok {
-			mark()
-		}
+		mark(ctx, "seek", "")
 		if _, err = br.Seek(0, io.SeekStart); err != nil {
 			return "", err
 		}
@@ -407,6 +492,71 @@ func referrerList(ctx context.Context, rg *reg.Reg, f *fixture, r ref.Ref) (stri
 
 type concKey struct{}
 type markKey struct{}
+
+// l2Mark is an announcement of the operation itself: a Seek on its open response, or the start of its next
+// sub-operation (with the registry that one names, "" = the same).
+type l2Mark struct {
+	n    int // requests seen so far
+	kind string
+	up   string
+	t    int64
+}
+
+func mark(ctx context.Context, kind, up string) {
+	if f, ok := ctx.Value(markKey{}).(func(kind, up string)); ok {
+		f(kind, up)
+	}
+}
+
+// idleGap: the client is not used for longer than any back-off delay (delayMax of the scenario).
+func idleGap(ctx context.Context) {
+	if d, ok := ctx.Value(idleKey{}).(time.Duration); ok {
+		time.Sleep(d)
+	}
+}
+
+type idleKey struct{}
+type up2Key struct{}
+
+// ref2 is the same repository on the second registry.
+func ref2(ctx context.Context, r ref.Ref) ref.Ref {
+	r2, err := ref.New(ctx.Value(up2Key{}).(string) + "/" + r.Repository)
+	if err != nil {
+		panic(err)
+	}
+	return r2
+}
+
+// markEvents renders the announcements made when i requests had been seen.
+func markEvents(s *l2Scn, marks []l2Mark, i int, first bool) []vtrace.Event {
+	var out []vtrace.Event
+	set := func(up string) []string {
+		l := []string{}
+		for _, m := range s.Mirrors {
+			l = append(l, m.Name)
+		}
+		return append(l, up)
+	}
+	if first {
+		return []vtrace.Event{{"up": s.up(), "set": set(s.up())}}
+	}
+	for _, mk := range marks {
+		if mk.n != i {
+			continue
+		}
+		switch mk.kind {
+		case "seek":
+			out = append(out, vtrace.Event{"ev": "lseek", "tc": mk.t})
+		case "op":
+			ev := vtrace.Event{"ev": "op", "name": "next", "tc": mk.t}
+			if mk.up != "" {
+				ev["up"], ev["set"] = mk.up, set(mk.up)
+			}
+			out = append(out, ev)
+		}
+	}
+	return out
+}
 
 type hostState struct {
 	Tags      map[string]string
@@ -498,7 +648,8 @@ type l2Exec struct {
 	names   []string
 	gid     int64
 	quiet   []vtrace.Event
-	marks   []int // number of requests seen when the operation announced a new call of its own (Seek)
+	marks   []l2Mark
+	def     *config.Host
 }
 
 var errRunaway = errors.New("model host: run-away cut-off, identical request repeated too often")
@@ -631,9 +782,30 @@ func (x *l2Exec) l2Exec(ctx context.Context, op l2Op, done chan<- struct{}, res 
 		up.Mirrors = append(up.Mirrors, m.Name)
 	}
 	hosts = append(hosts, up)
+	// the second registry is configured like the first one
+	up2 := *up
+	up2.Name, up2.Hostname = s.up2(), s.up2()
+	up2.Mirrors = append([]string{}, up.Mirrors...)
+	hosts = append(hosts, &up2)
 	di := time.Duration(s.DIus) * time.Microsecond
-	opts := []reg.Opts{reg.WithConfigHosts(hosts), reg.WithHTTPClient(x.net.Client()),
-		reg.WithDelay(di, 4*di), reg.WithRetryLimit(s.R),
+	dmax := 4 * di
+	if s.Dmax > 0 {
+		dmax = time.Duration(s.Dmax) * di
+	}
+	if s.DefMirrors {
+		// the mirror list comes from the default host: no entry of its own for any registry or mirror
+		def := config.HostNew()
+		def.TLS, def.User, def.Pass = tls, "user-default", "pass-default"
+		def.Mirrors = append([]string{}, up.Mirrors...)
+		def.ReqConcurrent = up.ReqConcurrent
+		if s.NoHead {
+			def.APIOpts = map[string]string{"disableHead": "true"}
+		}
+		hosts = nil
+		x.def = def
+	}
+	opts := []reg.Opts{reg.WithConfigHosts(hosts), reg.WithConfigHostDefault(x.def), reg.WithHTTPClient(x.net.Client()),
+		reg.WithDelay(di, dmax), reg.WithRetryLimit(s.R),
 		reg.WithSlog(slog.New(slog.NewTextHandler(io.Discard, &slog.HandlerOptions{})))}
 	if op.chunk {
 		opts = append(opts, reg.WithBlobSize(1000, 1500))
@@ -651,12 +823,14 @@ func (x *l2Exec) l2Exec(ctx context.Context, op l2Op, done chan<- struct{}, res 
 	if s.Conc > 0 {
 		conc = s.Conc
 	}
-	octx := context.WithValue(context.WithValue(ctx, concKey{}, conc), markKey{}, func() {
+	octx := context.WithValue(context.WithValue(ctx, concKey{}, conc), markKey{}, func(kind, up string) {
 		n := len(x.net.Log())
 		x.mu.Lock()
-		x.marks = append(x.marks, n)
+		x.marks = append(x.marks, l2Mark{n: n, kind: kind, up: up, t: x.clk.now()})
 		x.mu.Unlock()
 	})
+	octx = context.WithValue(octx, idleKey{}, dmax+3*time.Millisecond)
+	octx = context.WithValue(octx, up2Key{}, s.up2())
 	*res, *rerr = op.run(octx, rg, theFixture, r)
 	if ctx.Err() != nil {
 		return
@@ -712,7 +886,7 @@ func runL2Once(s *l2Scn, faulty bool) *l2Outcome {
 	for _, m := range s.Mirrors {
 		all = append(all, hm{m.Name, m.Mode, m.Prefix})
 	}
-	all = append(all, hm{s.up(), "has", ""})
+	all = append(all, hm{s.up(), "has", ""}, hm{s.up2(), "has", ""})
 	for _, a := range all {
 		h := x.net.AddHost(a.name, feat)
 		if a.mode != "lacks" {
@@ -818,6 +992,9 @@ func runL2(s *l2Scn, probe bool) *vtrace.Trace {
 		hostNames, prios = append(hostNames, m.Name), append(prios, m.Prio)
 	}
 	hostNames, prios = append(hostNames, s.up()), append(prios, s.UpPrio)
+	if l2Ops[s.Op].two {
+		hostNames, prios = append(hostNames, s.up2()), append(prios, s.UpPrio)
+	}
 	prefixes := map[string]string{}
 	for _, m := range s.Mirrors {
 		if m.Prefix != "" {
@@ -827,15 +1004,16 @@ func runL2(s *l2Scn, probe bool) *vtrace.Trace {
 	hdr := map[string]any{"R": s.R, "D": s.DIus, "up": s.up(), "hosts": hostNames, "prio": prios,
 		"slack": 500000, "waive": []string{}, "layer": 2}
 	evs := []vtrace.Event{{"ev": "op", "name": s.Op, "tc": run.tc}}
+	if l2Ops[s.Op].two {
+		for k, v := range markEvents(s, nil, 0, true)[0] {
+			evs[0][k] = v
+		}
+	}
 	log := run.log
 	sort.SliceStable(log, func(i, j int) bool { return log[i].Seq < log[j].Seq })
 	for i, rq := range log {
 		x.mu.Lock()
-		for _, mk := range x.marks {
-			if mk == i && i > 0 {
-				evs = append(evs, vtrace.Event{"ev": "lseek", "tc": x.tr[log[i-1].Seq]})
-			}
-		}
+		evs = append(evs, markEvents(s, x.marks, i, false)...)
 		ta, okA := x.ta[rq.Seq]
 		tr, okR := x.tr[rq.Seq]
 		capped, natural := x.capped[rq.Seq], x.natural[rq.Seq]
